@@ -42,30 +42,31 @@ def RecSpec (src : Mgr) (addr : Nid → Nat) (same : Bool) (c : Content) (i : Ni
     ∀ r tgt', (reconstruct src addr c (c.args.map g)).run tgt = (r, tgt') →
       Inv tgt' ∧ Ext tgt tgt' ∧ NewCopies src tgt tgt' ∧ ∀ j, r = .ok j → Copy src tgt' i j
 
-/-- the memo maps source nodes to faithful copies -/
-def MemoOK (src tgt : Mgr) (memo : Memo) : Prop :=
-  ∀ a b, assoc a memo = some b → Copy src tgt a b
+/-- the memo maps nodes of the source managers (`srcs k`, keyed `(k, node)`) to faithful copies -/
+def MemoOK (srcs : Nat → Mgr) (tgt : Mgr) (memo : Memo) : Prop :=
+  ∀ k a b, assoc (k, a) memo = some b → Copy (srcs k) tgt a b
 
-theorem MemoOK.mono {src tgt tgt' : Mgr} (ht : Inv tgt) (ht' : Inv tgt') (he : Ext tgt tgt') {memo : Memo}
-    (h : MemoOK src tgt memo) : MemoOK src tgt' memo :=
-  fun a b hab => (h a b hab).mono ht ht' he
+theorem MemoOK.mono {srcs : Nat → Mgr} {tgt tgt' : Mgr} (ht : Inv tgt) (ht' : Inv tgt') (he : Ext tgt tgt')
+    {memo : Memo} (h : MemoOK srcs tgt memo) : MemoOK srcs tgt' memo :=
+  fun k a b hab => (h k a b hab).mono ht ht' he
 
-/-- result of a traversal step: state facts hold whatever the outcome; on success the memo
-    only grew, is still faithful and covers what had to be visited -/
-structure WalkOK (src tgt tgt' : Mgr) (memo : Memo) (r : Except Err Memo) (covered : List Nid) : Prop where
+/-- result of a traversal step of source `k0`: state facts hold whatever the outcome; on
+    success the memo only grew, is still faithful and covers what had to be visited -/
+structure WalkOK (srcs : Nat → Mgr) (k0 : Nat) (tgt tgt' : Mgr) (memo : Memo) (r : Except Err Memo)
+    (covered : List Nid) : Prop where
   inv : Inv tgt'
   ext : Ext tgt tgt'
-  new : NewCopies src tgt tgt'
+  new : NewCopies (srcs k0) tgt tgt'
   ok : ∀ memo', r = .ok memo' →
-    MemoOK src tgt' memo' ∧ (∀ a b, assoc a memo = some b → assoc a memo' = some b) ∧
-    (∀ a ∈ covered, (assoc a memo').isSome)
+    MemoOK srcs tgt' memo' ∧ (∀ key b, assoc key memo = some b → assoc key memo' = some b) ∧
+    (∀ a ∈ covered, (assoc (k0, a) memo').isSome)
 
-theorem foldMemo_spec {src : Mgr} (same : Bool) (f : Nid → Memo → Prog Memo)
+theorem foldMemo_spec {srcs : Nat → Mgr} (k0 : Nat) (same : Bool) (f : Nid → Memo → Prog Memo)
     (l : List Nid)
-    (hf : ∀ a ∈ l, ∀ (tgt : Mgr) (memo : Memo), Inv tgt → (same = true → Ext src tgt) → MemoOK src tgt memo →
-      ∀ r tgt', (f a memo).run tgt = (r, tgt') → WalkOK src tgt tgt' memo r [a]) :
-    ∀ (tgt : Mgr) (memo : Memo), Inv tgt → (same = true → Ext src tgt) → MemoOK src tgt memo →
-      ∀ r tgt', (foldMemo f l memo).run tgt = (r, tgt') → WalkOK src tgt tgt' memo r l := by
+    (hf : ∀ a ∈ l, ∀ (tgt : Mgr) (memo : Memo), Inv tgt → (same = true → Ext (srcs k0) tgt) → MemoOK srcs tgt memo →
+      ∀ r tgt', (f a memo).run tgt = (r, tgt') → WalkOK srcs k0 tgt tgt' memo r [a]) :
+    ∀ (tgt : Mgr) (memo : Memo), Inv tgt → (same = true → Ext (srcs k0) tgt) → MemoOK srcs tgt memo →
+      ∀ r tgt', (foldMemo f l memo).run tgt = (r, tgt') → WalkOK srcs k0 tgt tgt' memo r l := by
   induction l with
   | nil =>
     intro tgt memo ht _ hm r tgt' hrun
@@ -88,7 +89,8 @@ theorem foldMemo_spec {src : Mgr} (same : Bool) (f : Nid → Memo → Prog Memo)
       | ok m1 =>
         simp only at hrun
         obtain ⟨hm1, hsub1, hcov1⟩ := w1.ok m1 rfl
-        have w2 := ih (fun x hx => hf x (List.mem_cons_of_mem _ hx)) t1 m1 w1.inv (fun h => (hsame h).trans w1.ext) hm1 r tgt' hrun
+        have w2 := ih (fun x hx => hf x (List.mem_cons_of_mem _ hx)) t1 m1 w1.inv
+          (fun h => (hsame h).trans w1.ext) hm1 r tgt' hrun
         have hpos : 0 < tgt.nextId := Nat.zero_lt_of_lt (ht.range _ _ ht.tt).2
         refine ⟨w2.inv, w1.ext.trans w2.ext, NewCopies.trans w1.inv w2.inv w2.ext w1.new w2.new hpos, ?_⟩
         intro memo' hr
@@ -98,15 +100,18 @@ theorem foldMemo_spec {src : Mgr} (same : Bool) (f : Nid → Memo → Prog Memo)
         rcases List.mem_cons.mp hx with rfl | hx
         · have := hcov1 x (by simp)
           obtain ⟨y, hy⟩ := Option.isSome_iff_exists.mp this
-          rw [hsub2 x y hy]; rfl
+          rw [hsub2 _ y hy]; rfl
         · exact hcov2 x hx
 
-/-- **The traversal returns faithful copies** provided every callback does (`RecSpec`). -/
-theorem normAux_spec {src : Mgr} (hsrc : Inv src) (addr : Nid → Nat) (same : Bool) (bound : Nid)
-    (hrec : ∀ c k, (c, k) ∈ src.formulae → k ≤ bound → RecSpec src addr same c k) :
-    ∀ (fuel : Nat) (i : Nid), i < fuel → 0 < i → i < src.nextId → i ≤ bound →
-      ∀ (tgt : Mgr) (memo : Memo), Inv tgt → (same = true → Ext src tgt) → MemoOK src tgt memo →
-        ∀ r tgt', (normAux src addr fuel i memo).run tgt = (r, tgt') → WalkOK src tgt tgt' memo r [i] := by
+/-- **The traversal returns faithful copies** provided every callback does (`RecSpec`) — for
+    any faithful memo it starts from, whichever sources filled it. -/
+theorem normAux_spec {srcs : Nat → Mgr} (k0 : Nat) (hsrc : Inv (srcs k0)) (addr : Nid → Nat) (same : Bool)
+    (bound : Nid)
+    (hrec : ∀ c k, (c, k) ∈ (srcs k0).formulae → k ≤ bound → RecSpec (srcs k0) addr same c k) :
+    ∀ (fuel : Nat) (i : Nid), i < fuel → 0 < i → i < (srcs k0).nextId → i ≤ bound →
+      ∀ (tgt : Mgr) (memo : Memo), Inv tgt → (same = true → Ext (srcs k0) tgt) → MemoOK srcs tgt memo →
+        ∀ r tgt', (normAux (srcs k0) k0 addr fuel i memo).run tgt = (r, tgt') →
+          WalkOK srcs k0 tgt tgt' memo r [i] := by
   intro fuel
   induction fuel with
   | zero => intro i h; omega
@@ -125,16 +130,18 @@ theorem normAux_spec {src : Mgr} (hsrc : Inv src) (addr : Nid → Nat) (same : B
       simp only [bind] at hrun
       rw [Prog.run_bind] at hrun
       -- children
-      have hkids : ∀ a ∈ c.args.reverse, ∀ (tgt : Mgr) (memo : Memo), Inv tgt → (same = true → Ext src tgt) →
-          MemoOK src tgt memo →
-          ∀ r tgt', (normAux src addr fuel a memo).run tgt = (r, tgt') → WalkOK src tgt tgt' memo r [a] := by
+      have hkids : ∀ a ∈ c.args.reverse, ∀ (tgt : Mgr) (memo : Memo), Inv tgt →
+          (same = true → Ext (srcs k0) tgt) → MemoOK srcs tgt memo →
+          ∀ r tgt', (normAux (srcs k0) k0 addr fuel a memo).run tgt = (r, tgt') →
+            WalkOK srcs k0 tgt tgt' memo r [a] := by
         intro a ha
         have ha' : a ∈ c.ids := by simp [Content.ids]; left; simpa using ha
         have hcl := hsrc.closed c i hc a ha'
         exact ih a (by omega) hcl.1 (by omega) (by omega)
-      cases h1 : (foldMemo (normAux src addr fuel) c.args.reverse memo).run tgt with
+      cases h1 : (foldMemo (normAux (srcs k0) k0 addr fuel) c.args.reverse memo).run tgt with
       | mk r1 t1 =>
-        have w1 := foldMemo_spec same (normAux src addr fuel) c.args.reverse hkids tgt memo ht hsame hm r1 t1 h1
+        have w1 := foldMemo_spec k0 same (normAux (srcs k0) k0 addr fuel) c.args.reverse hkids tgt memo ht hsame hm
+          r1 t1 h1
         rw [h1] at hrun
         cases r1 with
         | error e =>
@@ -145,13 +152,13 @@ theorem normAux_spec {src : Mgr} (hsrc : Inv src) (addr : Nid → Nat) (same : B
           simp only at hrun
           obtain ⟨hm1, hsub1, hcov1⟩ := w1.ok m1 rfl
           rw [Prog.run_bind] at hrun
-          cases h2 : (reconstruct src addr c (c.args.map fun a => (assoc a m1).getD 0)).run t1 with
+          cases h2 : (reconstruct (srcs k0) addr c (c.args.map fun a => (assoc (k0, a) m1).getD 0)).run t1 with
           | mk r2 t2 =>
-            have hcopies : ∀ a ∈ c.args, Copy src t1 a ((assoc a m1).getD 0) := by
+            have hcopies : ∀ a ∈ c.args, Copy (srcs k0) t1 a ((assoc (k0, a) m1).getD 0) := by
               intro a ha
               have := hcov1 a (by simpa using ha)
               obtain ⟨y, hy⟩ := Option.isSome_iff_exists.mp this
-              rw [hy]; exact hm1 a y hy
+              rw [hy]; exact hm1 k0 a y hy
             have w2 := hrec c i hc hb hc t1 _ w1.inv (fun h => (hsame h).trans w1.ext) hcopies r2 t2 h2
             obtain ⟨hi2, he2, hn2, hcp2⟩ := w2
             rw [h2] at hrun
@@ -168,34 +175,42 @@ theorem normAux_spec {src : Mgr} (hsrc : Inv src) (addr : Nid → Nat) (same : B
               intro memo' hm'
               cases hm'
               refine ⟨?_, ?_, ?_⟩
-              · intro a b hab
+              · intro k a b hab
                 simp only [assoc] at hab
                 split at hab
-                next heq => cases hab; subst heq; exact hcp2 j rfl
-                next => exact (hm1 a b hab).mono w1.inv hi2 he2
-              · intro a b hab
+                next heq =>
+                  cases hab
+                  simp only [Prod.mk.injEq] at heq
+                  obtain ⟨rfl, rfl⟩ := heq
+                  exact hcp2 j rfl
+                next => exact (hm1 k a b hab).mono w1.inv hi2 he2
+              · intro key b hab
                 simp only [assoc]
                 split
-                next heq => subst heq; rw [hnone] at hab; cases hab
-                next => exact hsub1 a b hab
+                next heq => rw [heq, hnone] at hab; cases hab
+                next => exact hsub1 key b hab
               · intro a ha
                 simp only [List.mem_singleton] at ha
                 subst ha
                 simp [assoc]
 
-/-- `normalize` returns a faithful copy and creates nothing but copies — if every callback on
-    the nodes up to `i` meets its specification. -/
-theorem normalize_spec {src : Mgr} (hsrc : Inv src) (addr : Nid → Nat) (same : Bool) {i : Nid} (i0 : 0 < i)
-    (i1 : i < src.nextId) (hrec : ∀ c k, (c, k) ∈ src.formulae → k ≤ i → RecSpec src addr same c k)
-    {tgt : Mgr} (ht : Inv tgt) (hsame : same = true → Ext src tgt) {r : Except Err Nid} {tgt' : Mgr}
-    (hrun : (normalize src addr i).run tgt = (r, tgt')) :
-    Inv tgt' ∧ Ext tgt tgt' ∧ NewCopies src tgt tgt' ∧ ∀ j, r = .ok j → Copy src tgt' i j := by
-  simp only [normalize, bind] at hrun
+/-- `normalize` with a persistent memo returns a faithful copy and creates nothing but copies,
+    and hands back a faithful memo — if every callback on the nodes up to `i` meets its
+    specification. -/
+theorem normalizeM_spec {srcs : Nat → Mgr} (k0 : Nat) (hsrc : Inv (srcs k0)) (addr : Nid → Nat) (same : Bool)
+    {i : Nid} (i0 : 0 < i) (i1 : i < (srcs k0).nextId)
+    (hrec : ∀ c k, (c, k) ∈ (srcs k0).formulae → k ≤ i → RecSpec (srcs k0) addr same c k)
+    {tgt : Mgr} (ht : Inv tgt) (hsame : same = true → Ext (srcs k0) tgt) {memo : Memo}
+    (hm : MemoOK srcs tgt memo) {r : Except Err (Memo × Nid)} {tgt' : Mgr}
+    (hrun : (normalizeM (srcs k0) k0 addr i memo).run tgt = (r, tgt')) :
+    Inv tgt' ∧ Ext tgt tgt' ∧ NewCopies (srcs k0) tgt tgt' ∧
+      ∀ memo' j, r = .ok (memo', j) → Copy (srcs k0) tgt' i j ∧ MemoOK srcs tgt' memo' := by
+  simp only [normalizeM, bind] at hrun
   rw [Prog.run_bind] at hrun
-  cases h1 : (normAux src addr (i + 1) i []).run tgt with
+  cases h1 : (normAux (srcs k0) k0 addr (i + 1) i memo).run tgt with
   | mk r1 t1 =>
-    have w := normAux_spec hsrc addr same i hrec (i + 1) i (by omega) i0 i1 (Nat.le_refl _) tgt [] ht hsame
-      (fun a b h => by simp [assoc] at h) r1 t1 h1
+    have w := normAux_spec k0 hsrc addr same i hrec (i + 1) i (by omega) i0 i1 (Nat.le_refl _) tgt memo ht hsame
+      hm r1 t1 h1
     rw [h1] at hrun
     cases r1 with
     | error e =>
@@ -204,36 +219,15 @@ theorem normalize_spec {src : Mgr} (hsrc : Inv src) (addr : Nid → Nat) (same :
       exact ⟨w.inv, w.ext, w.new, by simp⟩
     | ok m =>
       simp only at hrun
-      obtain ⟨hm, _, hcov⟩ := w.ok m rfl
+      obtain ⟨hm', _, hcov⟩ := w.ok m rfl
       split at hrun
       next b hb =>
         simp only [pure, Prog.run, Prod.mk.injEq] at hrun
         obtain ⟨rfl, rfl⟩ := hrun
-        exact ⟨w.inv, w.ext, w.new, fun j hj => by cases hj; exact hm i b hb⟩
+        exact ⟨w.inv, w.ext, w.new, fun memo' j hj => by cases hj; exact ⟨hm' k0 i b hb, hm'⟩⟩
       next hnone =>
         simp only [failP, Prog.run, Prod.mk.injEq] at hrun
         obtain ⟨rfl, rfl⟩ := hrun
         exact ⟨w.inv, w.ext, w.new, by simp⟩
-
-/-- In the same manager the rebuild creates no node and returns the very same node. -/
-theorem rebuild_same {s : Mgr} (hs : Inv s) (addr : Nid → Nat) {i : Nid} (i0 : 0 < i) (i1 : i < s.nextId)
-    (hrec : ∀ c k, (c, k) ∈ s.formulae → k ≤ i → RecSpec s addr true c k)
-    {r : Except Err Nid} {s' : Mgr} (hrun : (normalize s addr i).run s = (r, s')) :
-    s'.nextId = s.nextId ∧ ∀ j, r = .ok j → j = i := by
-  obtain ⟨hi', he, hn, hc⟩ := normalize_spec hs addr true i0 i1 hrec hs (fun _ => Ext.refl s) hrun
-  constructor
-  · apply Nat.le_antisymm _ he.next
-    apply Nat.le_of_not_lt
-    intro hlt
-    obtain ⟨a, a0, a1, ha⟩ := hn s.nextId (Nat.le_refl _) hlt
-    have hpos : 0 < s.nextId := Nat.zero_lt_of_lt (hs.range _ _ hs.tt).2
-    rw [← struct_stable hs hi' he (a + 1) a (by omega) a0 a1] at ha
-    have := (struct_eq_iff hi' hpos hlt a0 (Nat.lt_of_lt_of_le a1 he.next)).mp ha
-    omega
-  · intro j hj
-    have cp := hc j hj
-    have h := cp.eq
-    rw [← struct_stable hs hi' he (i + 1) i (by omega) i0 i1] at h
-    exact (struct_eq_iff hi' cp.pos cp.lt i0 (Nat.lt_of_lt_of_le i1 he.next)).mp h
 
 end PySMT.Manager
